@@ -230,7 +230,7 @@ pub fn gen_cli_histories(out: &mut Out, rng: &mut Rng, n: usize) {
         let (slave_tok, mut unit) = if rng.chance(1, 3) {
             ("-".to_string(), if kind == "tcp" { 255u8 } else { 0 })
         } else {
-            let u = rng.u8();
+            let u = rng.unit();
             (hex8(u), u)
         };
         let mut line = format!("cli {kind} {slave_tok}");
@@ -238,7 +238,7 @@ pub fn gen_cli_histories(out: &mut Out, rng: &mut Rng, n: usize) {
         for _ in 0..rng.range(1, 7) {
             match rng.below(12) {
                 0 => {
-                    unit = rng.u8();
+                    unit = rng.unit();
                     line.push_str(&format!(" | slave {}", hex8(unit)));
                 }
                 1 if rng.chance(1, 3) => {
@@ -293,7 +293,7 @@ pub fn gen_srv_histories(out: &mut Out, rng: &mut Rng, n: usize) {
         let mut data: Vec<u8> = vec![];
         let mut svc: Vec<Svc> = vec![];
         for _ in 0..rng.range(0, 6) {
-            let unit = rng.u8();
+            let unit = rng.unit();
             let tid = rng.u16();
             match rng.below(10) {
                 0 => data.extend(rng.bytes_in(1, 20)),
@@ -328,7 +328,7 @@ pub fn gen_srv_histories(out: &mut Out, rng: &mut Rng, n: usize) {
                     data.extend(frame(kind, tid, unit, &b));
                     svc.push(match rng.below(8) {
                         0 => Svc::Decline,
-                        1 => Svc::Exception(tokio_modbus::ExceptionCode::new(rng.u8())),
+                        1 => Svc::Exception(tokio_modbus::ExceptionCode::new(rng.exc_code())),
                         2 => Svc::Reply(gen_response(rng, None)),
                         _ => Svc::Reply(answer_for(rng, &req)),
                     });
